@@ -8,7 +8,7 @@ git -C /repo worktree add -q --detach $wt HEAD || exit 2
 mkdir -p $vd; ln -s /verif/spec $vd/spec; ln -s /verif/known_findings.json $vd/known_findings.json
 git -C $wt apply /verif/seeded/$id/patch.diff || { echo "$id: patch does not apply"; git -C /repo worktree remove --force $wt; exit 2; }
 for p in "$@"; do
-  out=$(cd /verif && RVC_RACE_TIMEOUT=${RVC_RACE_TIMEOUT:-25} RVC_VERIF=$vd ./bin/rvc check $p --repo $wt 2>&1)
+  out=$(cd /verif && RVC_RACE_TIMEOUT=${RVC_RACE_TIMEOUT:-25} RVC_MAX_REPLAYS=${RVC_MAX_REPLAYS:-3} RVC_VERIF=$vd ./bin/rvc check $p --repo $wt 2>&1)
   n=$(echo "$out" | grep -c "^VIOLATION")
   first=$(echo "$out" | grep "^VIOLATION" | head -3 | sed 's/.*obligation=//' | tr '\n' ' ')
   rp=$(echo "$out" | grep "^VIOLATION" | grep -vc "no-failing-input-found")
